@@ -74,7 +74,8 @@ func genCase(r *fw.Rand) fw.Case {
 			ops = append(ops, "current")
 			add("advance")
 		case 13:
-			ops = append(ops, "current")
+			// Advance without Current: the queue's contract lets a consumer discard the
+			// oldest block unread (the node processor never does)
 			add("advance")
 		case 14:
 			if open && r.Chance(0.5) {
@@ -163,6 +164,11 @@ func genProcCase(r *fw.Rand) fw.Case {
 			ops = append(ops, "psend 1", "empty")
 		case 6:
 			ops = append(ops, "psend 0", "empty")
+			if r.Intn(2) == 0 {
+				// the head segment ages out and is purged between a failed attempt and the
+				// retry: the retry must look at the queue again
+				ops = append(ops, "age 0", "purge", "psend 1", "empty")
+			}
 		case 7, 8:
 			a, l := blk()
 			ops = append(ops, fmt.Sprintf("psendmid %d %d", a, l), "empty")
@@ -577,7 +583,6 @@ func (Prop) Oracle(c fw.Case, out []string) fw.Verdict {
 	const lostSig = "a block accepted under the buffered path is lost by a crash"
 	// a crash image in which the flush of one more block was torn: the blocks pending then
 	tornPending := map[int]bool{}
-	afterEOF := false            // the op before was a Current that found nothing
 	redeliver := false           // blocks delivered before may come again
 	delivered := map[int]bool{}  // ids delivered so far
 	tornExtra := map[int]bool{}  // never acknowledged, but possibly complete in the file
@@ -597,6 +602,19 @@ func (Prop) Oracle(c fw.Case, out []string) fw.Verdict {
 	purged := false
 	lastCurrent := -1
 	open, sentinel := true, false
+	// blocks an Advance without Current may have discarded: such an Advance discards the
+	// oldest block of the head segment, or only moves on from an exhausted head segment —
+	// which of the two depends on the segment layout, which this oracle does not track (the
+	// model does, and is compared op by op). One block per bare Advance, oldest first.
+	maybeGone := map[int]bool{}
+	allGone := func(ids []int) bool {
+		for _, id := range ids {
+			if !maybeGone[id] {
+				return false
+			}
+		}
+		return len(ids) > 0
+	}
 	for i, op := range c.Ops {
 		if i >= len(out) {
 			break
@@ -607,12 +625,10 @@ func (Prop) Oracle(c fw.Case, out []string) fw.Verdict {
 		if strings.HasPrefix(o, "panic") || strings.HasPrefix(o, "err:") {
 			return fw.Verdict{OK: false, Why: fmt.Sprintf("op %d %q => %s", i, op, o), Signature: strings.SplitN(o, ":", 2)[0] + " in " + f[0]}
 		}
-		if f[0] != "current" && f[0] != "advance" && f[0] != "empty" && f[0] != "usage" {
-			afterEOF = false
-		}
 		switch f[0] {
 		case "reset":
 			pending, purged, lastCurrent, open, sentinel = nil, false, -1, true, false
+			maybeGone = map[int]bool{}
 			unflushed, maybeLost, tornPending = nil, map[int]bool{}, map[int]bool{}
 			redeliver, delivered, tornExtra = false, map[int]bool{}, map[int]bool{}
 		case "crash":
@@ -663,7 +679,6 @@ func (Prop) Oracle(c fw.Case, out []string) fw.Verdict {
 			lastCurrent = -1
 		case "current":
 			lastCurrent = -1
-			afterEOF = o == "eof" // an Advance right after this only moves on from an exhausted head segment
 			if strings.HasPrefix(o, "block ") {
 				id, _ := strconv.Atoi(strings.Fields(o)[1])
 				// must be the oldest pending block (after a purge: some pending block, order kept)
@@ -680,6 +695,13 @@ func (Prop) Oracle(c fw.Case, out []string) fw.Verdict {
 				}
 				if idx < 0 {
 					return fw.Verdict{OK: false, Why: fmt.Sprintf("op %d: current returned block %d which is not pending (pending %v)", i, id, pending), Signature: "delivered block not pending (duplicate or phantom)"}
+				}
+				if idx > 0 && allGone(pending[:idx]) {
+					for _, g := range pending[:idx] {
+						delivered[g] = true // consumed: a torn crash may bring it back like a delivered block
+					}
+					pending = pending[idx:] // discarded unread by bare Advances
+					idx = 0
 				}
 				if idx > 0 && !purged {
 					if allTorn(pending[:idx]) {
@@ -727,18 +749,16 @@ func (Prop) Oracle(c fw.Case, out []string) fw.Verdict {
 				pending = append(pending, id)
 			}
 		case "advance":
-			if o == "ok" && lastCurrent < 0 && !afterEOF && len(pending) > 0 && open && !purged && !redeliver {
-				// Advance without Current: the consumer discards the oldest block unread (the
-				// queue's contract; the node processor never does it) — unless that block
-				// is still in a write buffer, which Advance does not see
-				inBuf := false
-				for _, id := range unflushed {
-					if id == pending[0] {
-						inBuf = true
+			if o == "ok" && lastCurrent < 0 && open {
+				// Advance without Current (the queue's contract; the node processor never does
+				// it): the oldest block not yet marked may be gone (not if it still sits in a
+				// write buffer, which Advance does not see — then it is delivered later, which
+				// the mark allows as well)
+				for _, id := range pending {
+					if !maybeGone[id] {
+						maybeGone[id] = true
+						break
 					}
-				}
-				if !inBuf {
-					pending = pending[1:]
 				}
 			}
 			if o == "ok" && lastCurrent >= 0 && len(pending) > 0 && pending[0] == lastCurrent {
@@ -756,6 +776,9 @@ func (Prop) Oracle(c fw.Case, out []string) fw.Verdict {
 				continue // after an age purge the oracle no longer knows exactly what is pending; a closed queue holds nothing open
 			}
 			want := fmt.Sprint(len(pending) == 0)
+			if allGone(pending) {
+				continue // whether anything is left depends on what the bare Advances met
+			}
 			if o == "false" && want == "true" && redeliver {
 				continue // blocks delivered before the torn crash are pending again
 			}
@@ -776,6 +799,16 @@ func (Prop) Oracle(c fw.Case, out []string) fw.Verdict {
 		}
 	}
 	// the case ends with a full drain on an open queue: nothing accepted may be left behind
+	// (but what a bare Advance may have discarded)
+	{
+		var left []int
+		for _, id := range pending {
+			if !maybeGone[id] {
+				left = append(left, id)
+			}
+		}
+		pending = left
+	}
 	if len(pending) > 0 && !purged && open && sentinel && allTorn(pending) {
 		return fw.Verdict{OK: false, Why: fmt.Sprintf("blocks %v had been accepted and flushed before the crash that tore the flush of a later block; they were never delivered", pending), Signature: tornSig}
 	}
